@@ -716,11 +716,11 @@ class Mask2D(Mask):
 
         from autoarray.structures.arrays.uniform_2d import Array2D
 
-        pad_size_0 = self.shape[0] - image_shape[0]
-        pad_size_1 = self.shape[1] - image_shape[1]
+        y0 = int(self.shape[0] / 2) - int(image_shape[0] / 2)
+        x0 = int(self.shape[1] / 2) - int(image_shape[1] / 2)
         trimmed_array = padded_array.native[
-            pad_size_0 // 2 : self.shape[0] - pad_size_0 // 2,
-            pad_size_1 // 2 : self.shape[1] - pad_size_1 // 2,
+            y0 : y0 + image_shape[0],
+            x0 : x0 + image_shape[1],
         ]
         return Array2D.no_mask(
             values=trimmed_array,
